@@ -30,7 +30,7 @@ T = {
          "Rocq proofs (convexity, sums of squares) + bit-exact correspondence + ordering predicates on implementation outputs"),
  "C14": ("Theorems over exact reals, for every stream: SMA, WMA, SD, MAD, EMA, MACD, TrueRange, ATR, KeltnerChannel and Bollinger levels scale with c; SMA, EMA, WMA, KC and BB levels shift by d while SD, MAD, MACD, TrueRange, ATR are unchanged; Minimum and Maximum commute with every strictly increasing map; FastStochastic is unchanged by x -> c*x+d (c>0); SlowStochastic is unchanged by the same maps; PPO, ROC, EfficiencyRatio, CCI, MFI, OBV are unchanged by c>0 including their division-by-zero cases; for every number type whose negation reverses the comparison Maximum(x) = -Minimum(-x) exactly. ChandelierExit and the float tolerances: pairwise comparison of implementation runs (partial).",
          "Rocq proofs (homogeneity of the exact specifications; uniqueness of extremes under monotone maps; simulation for Max/Min) + bit-exact correspondence + scaled/shifted run comparison on the implementation"),
- "C04": ("Theorems for every number type: reset of any reachable state equals the constructor's state as a record for the 17 indicators without Minimum/Maximum inside (C04_reset_is_new), keeps parameters, is idempotent and a no-op on fresh instances; Minimum/Maximum reset is observationally equal to new on every continuation for every strict total order with top (C04_min_reset_equiv, C04_max_reset_equiv), instantiated for binary64 without NaN/-0.0. Correspondence: histories with NaN/inf/extremes and repeated resets, implementation after reset vs fresh implementation vs model.",
+ "C04": ("Theorems for every number type: reset of any reachable state equals the constructor's state as a record for the 17 indicators without Minimum/Maximum inside (C04_reset_is_new), keeps parameters, is idempotent and a no-op on fresh instances; Minimum/Maximum reset is observationally equal to new on every continuation for every strict total order with top (C04_min_reset_equiv, C04_max_reset_equiv), instantiated for binary64 without NaN/-0.0 and lifted to FastStochastic (both paths), SlowStochastic and ChandelierExit, so all 22 indicators are covered. Correspondence: histories with NaN/inf/extremes and repeated resets, implementation after reset vs fresh implementation vs model.",
          "Rocq proofs (invariant + record equality; order-theoretic bisimulation for Min/Max) + bit-exact correspondence"),
  "C05": ("Theorems about the store model of instances: frame (ops on other instances never change instance i), clone starts from the source's "
          "state, interleavings with other instances are invisible, equal state + equal history gives equal observations. Tied to the code by "
